@@ -121,6 +121,28 @@ pub fn scenarios(tier: Tier) -> Vec<C09Scn> {
 			async_from_start: vec![1],
 			max_disconnects: 0,
 		});
+		// several payments in flight through B while B delays handling its events: monitor updates get
+		// blocked behind unhandled events while new updates (learned preimages) must still fly past them
+		v.push(C09Scn {
+			name: format!("{}-abc-blocked-updates", n),
+			ct,
+			nodes: 3,
+			ops: vec![
+				// a forwarded payment C -> B -> A stays pending at A ...
+				Op::Send { from: 2, hops: vec![(1, 1), (0, 0)], amount_msat: 30_000_000, policy: ClaimPolicy::Hold },
+				// ... B pays C (B's PaymentSent may stay unhandled: one held deviation) ...
+				Op::Send { from: 1, hops: vec![(2, 1)], amount_msat: 20_000_000, policy: ClaimPolicy::Claim },
+				// ... C adds another HTLC on the same channel ...
+				Op::Send { from: 2, hops: vec![(1, 1)], amount_msat: 10_000_000, policy: ClaimPolicy::Claim },
+				// ... and only then A releases the preimage of the first one
+				Op::ClaimHeld { pay: 0 },
+			],
+			ops_first: false,
+			dev: Deviations { hold_events: Some(1), reorder: Some(1), early_op: Some(1), async_persist: None, ..asyncdev.clone() },
+			k: if th { 2 } else { 1 },
+			async_from_start: vec![],
+			max_disconnects: 0,
+		});
 		// completion during disconnection
 		v.push(C09Scn {
 			name: format!("{}-ab-disconnect", n),
